@@ -23,6 +23,8 @@
 //!                            counter on the whole program, real client counter on the creations made
 //!                            while the flag is on (c=) and on the whole program (c2=)
 //!                                                                                     -> s=.. c=.. c2=.. ## verdict
+//!   js <src>                 browser twins only: value of the string literal <src>            -> <s> | syntax-error
+//!   tok <text>               browser twins only: tokenizer + scanner on arbitrary text       -> tok=.. danger=..
 //!   lit d|e <s>              one-value session: the `__RESOLVED_RESOURCES[0] = …;` (d) or
 //!                            `__SERIALIZED_ERRORS.push([0, 0, …]);` (e) chunk for <s>
 //!                                                                                     -> <wrapped> tok=.. danger=.. <read|none|syntax-error> ## verdict
@@ -975,11 +977,56 @@ fn op(c: &mut Case, tags: &HashMap<String, String>, line: &str) -> String {
             };
             format!("{head} {gs} ## {v}")
         }
+        ["js", h] => {
+            let Some(src) = unhex_str(h) else { return "bad-op".into() };
+            let u = cps(&src);
+            if u.first() != Some(&0x22) {
+                return "syntax-error".into();
+            }
+            match js::string_literal(&u, 0) {
+                Some((v, end)) if end == u.len() => hex_cps(&js::utf16_to_cps(&v)),
+                _ => "syntax-error".into(),
+            }
+        }
+        ["tok", h] => {
+            let Some(t) = unhex_str(h) else { return "bad-op".into() };
+            format!("tok={} danger={}", tok_show(&t), html::has_danger(&t) as u8)
+        }
         _ => "bad-op".into(),
     }
 }
 
 // ------------------------------------------------------------------ tags (first pass over the ops file)
+
+fn payload_tags(t: &mut Vec<&'static str>, s: &str, is_err: bool, json: bool) {
+    if nul_oct(s) {
+        t.push("nul-octal")
+    }
+    if s.contains('\0') {
+        t.push("nul")
+    }
+    if s.contains('<') {
+        t.push(if is_err { "err-lt" } else if json { "json-lt" } else { "lt" })
+    }
+    if html::has_danger(s) {
+        t.push(if is_err { "err-markup" } else { "data-markup-pattern" })
+    }
+    if s.contains('\u{2028}') || s.contains('\u{2029}') || s.contains('\u{feff}') {
+        t.push("ls-ps-bom")
+    }
+    if s.contains('\\') || s.contains('"') {
+        t.push("quote-backslash")
+    }
+    if s.chars().any(|c| c as u32 >= 0x80) {
+        t.push("unicode")
+    }
+    if s.chars().any(|c| (c as u32) < 0x20) {
+        t.push("control")
+    }
+    if !s.is_empty() && s.chars().all(|c| c.is_ascii_alphanumeric() || c == ' ') {
+        t.push("alnum")
+    }
+}
 
 fn compute_tags(ops_path: &str) -> HashMap<String, String> {
     let mut out = HashMap::new();
@@ -1004,52 +1051,23 @@ fn compute_tags(ops_path: &str) -> HashMap<String, String> {
             }
             _ => {
                 let Some((_, t)) = cur.as_mut() else { continue };
-                let mut payload = |s: &str, is_err: bool, json: bool| {
-                    if nul_oct(s) {
-                        t.push("nul-octal")
-                    }
-                    if s.contains('\0') {
-                        t.push("nul")
-                    }
-                    if s.contains('<') {
-                        t.push(if is_err { "err-lt" } else if json { "json-lt" } else { "lt" })
-                    }
-                    if html::has_danger(s) {
-                        t.push(if is_err { "err-markup" } else { "data-markup-pattern" })
-                    }
-                    if s.contains('\u{2028}') || s.contains('\u{2029}') || s.contains('\u{feff}') {
-                        t.push("ls-ps-bom")
-                    }
-                    if s.contains('\\') || s.contains('"') {
-                        t.push("quote-backslash")
-                    }
-                    if s.chars().any(|c| c as u32 >= 0x80) {
-                        t.push("unicode")
-                    }
-                    if s.chars().any(|c| (c as u32) < 0x20) {
-                        t.push("control")
-                    }
-                    if !s.is_empty() && s.chars().all(|c| c.is_ascii_alphanumeric() || c == ' ') {
-                        t.push("alnum")
-                    }
-                };
                 match w.as_slice() {
                     ["write", enc, h] => {
                         t.push(if *enc == "json" { "json" } else { "str" });
                         if let Some(s) = unhex_str(h) {
-                            payload(&s, false, *enc == "json")
+                            payload_tags(t, &s, false, *enc == "json")
                         }
                     }
                     ["err", _, _, h] => {
                         t.push("error");
                         if let Some(s) = unhex_str(h) {
-                            payload(&s, true, false)
+                            payload_tags(t, &s, true, false)
                         }
                     }
                     ["lit", site, h] => {
                         t.push(if *site == "d" { "lit-data" } else { "lit-error" });
                         if let Some(s) = unhex_str(h) {
-                            payload(&s, *site == "e", false)
+                            payload_tags(t, &s, *site == "e", false)
                         }
                     }
                     ["ids", k, p] => {
@@ -1165,7 +1183,7 @@ fn gen_string(r: &mut Rng, max: usize) -> String {
         match r.below(10) {
             0 | 1 => s.push(gen_unicode_char(r)),
             2 => s.push(char::from_u32(r.below(0x80) as u32).unwrap()),
-            _ => s.push_str(r.pick(ATOMS)),
+            _ => s.push_str(*r.pick(ATOMS)),
         }
     }
     s
